@@ -110,20 +110,38 @@ func gopfmt(path string, class, smart, mvgo bool) (err error) {
 
 func writeFileWithBackup(path string, target []byte) (err error) {
 	dir, file := filepath.Split(path)
+	if dir == "" {
+		// Keep the temp file next to path: os.CreateTemp("", ...) would put it in
+		// os.TempDir(), and a rename across file systems fails.
+		dir = "."
+	}
+	fi, err := os.Stat(path)
+	if err != nil {
+		return
+	}
 	f, err := os.CreateTemp(dir, file)
 	if err != nil {
 		return
 	}
 	tmpfile := f.Name()
+	defer func() {
+		if err != nil {
+			os.Remove(tmpfile)
+		}
+	}()
 	_, err = f.Write(target)
-	f.Close()
+	if err == nil {
+		// os.CreateTemp creates the file with mode 0600; keep the original's.
+		err = f.Chmod(fi.Mode().Perm())
+	}
+	if e := f.Close(); err == nil {
+		err = e
+	}
 	if err != nil {
 		return
 	}
-	err = os.Remove(path)
-	if err != nil {
-		return
-	}
+	// Rename replaces path atomically, so that path holds either the complete
+	// original or the complete new content whenever the process dies.
 	return os.Rename(tmpfile, path)
 }
 
